@@ -54,6 +54,12 @@ func c10Cases(c *Ctx) []c10Case {
 		add(sCfg{"NONE", "NONE", 4096, 1, 64, 0, false}, "random", n)
 		add(sCfg{"LZ", "ANS0", 4096, 1, 32, 0, false}, "text", n)
 	}
+	// data kinds that select other parameters inside a transform (ROLZ / ROLZX: 8-byte context and other minimum match for DNA and multimedia)
+	for i, t := range []string{"ROLZ", "ROLZX", "LZ", "LZX", "RLT", "TEXT"} {
+		for j, sh := range []string{"dna", "dna+repeats", "mm", "exe", "b64", "utf8"} {
+			add(sCfg{t, []string{"NONE", "HUFFMAN"}[(i+j)%2], 65536, 1, []uint{0, 64, 32}[(i+j)%3], 0, false}, sh, 40000+i+j)
+		}
+	}
 	// block lengths around the thresholds that are part of the format (BWT: one primary index below 256 bytes, eight from 256 on)
 	for i, n := range []int{255, 256, 257, 1024 + 256, 1024 + 255, 4096} {
 		add(sCfg{"BWT", []string{"NONE", "ANS0", "HUFFMAN"}[i%3], 1024, 1, []uint{0, 32, 64}[i%3], 0, false}, "text", n)
@@ -102,6 +108,23 @@ func c10Data(k c10Case) []byte {
 			}
 			b = append(b, w...)
 			b = append(b, ' ')
+		}
+		return b[:k.size]
+	}
+	if k.shape == "dna+repeats" { // nucleotides with copied segments (long matches under the DNA parameters of the match finders)
+		r := NewRng(k.seed)
+		al := "ACGTACGTACGTACGTN\n"
+		b := make([]byte, 0, k.size+80)
+		for len(b) < k.size {
+			if len(b) > 200 && r.Intn(3) == 0 {
+				n := r.Range(12, 72)
+				from := r.Intn(len(b) - n)
+				b = append(b, b[from:from+n]...)
+				continue
+			}
+			for j := r.Range(8, 48); j > 0; j-- {
+				b = append(b, al[r.Intn(len(al))])
+			}
 		}
 		return b[:k.size]
 	}
